@@ -15,7 +15,7 @@ from hv.base import REPO, VERIF, ShardResult, Violation, seed_env
 from hv.worlds import profile, st_world, world_summary
 
 PROP = "C01"
-RULE = ("the harness owns the process / hash-seed dimension: a pool of long-lived worker processes, each started with a different PYTHONHASHSEED "
+RULE = ("the harness owns the process / hash-seed dimension: a pool of long-lived worker processes, each started with a different PYTHONHASHSEED and a different local time zone (TZ) "
         "(always including 0, 1 and 3), plus one worker that runs every scenario twice in one process; the parent draws one pure-data scenario and "
         "ships it to all workers: (a) generated file-based scenarios rich in ties and shared membership (vehicles stacked on one site, requests with "
         "equal value / origin / timestamp, one-plug stations reached in the same step, stations with 2-3 on-shift plug types, co-located bases, "
@@ -36,6 +36,9 @@ PROFILE = profile(nv=(3, 8), n_requests=(10, 60), builtin=[True], n_scripted=[1]
                   max_plugs=1, stations=(1, 3), bases=(1, 3), timeouts=[300, 600], steps=[30, 60, 60, 120, 300], humans=True)
 
 
+WORKER_TZ = [None, "JST-9", "MST7", "CET-1", "UTC0"]
+
+
 class Pool:
     def __init__(self, hash_seeds: List[int]):
         self.seeds = hash_seeds
@@ -44,6 +47,11 @@ class Pool:
             env = dict(os.environ)
             env["PYTHONHASHSEED"] = str(h)
             env["PYTHONPATH"] = f"{REPO}:{VERIF}:{VERIF}/.deps"
+            # "whichever process runs it": the workers also differ in their local time zone (POSIX TZ strings, no zone
+            # database needed): worker 0 keeps the caller's zone, the others run at UTC+9, UTC-7, UTC+1, ...
+            tz = WORKER_TZ[i % len(WORKER_TZ)]
+            if tz is not None:
+                env["TZ"] = tz
             p = subprocess.Popen([sys.executable, "-m", "hv.c01worker"], stdin=subprocess.PIPE, stdout=subprocess.PIPE, stderr=subprocess.DEVNULL,
                                  env=env, cwd=str(VERIF), text=True, bufsize=1)
             self.procs.append(p)
@@ -105,9 +113,9 @@ def _compare(job, results, seeds, pool) -> List[Violation]:
                 else:
                     ea, eb = set(fa["full"]["events"]), set(fb["full"]["events"])
                     diff = {"only_with_seed_a": sorted(ea - eb)[:2], "only_with_seed_b": sorted(eb - ea)[:2]}
-                return [Violation(PROP, f"{what} differ between processes with different hash seeds", {"step": k, "hash_seeds": [seeds[0], seeds[i]], "first_difference": diff})]
+                return [Violation(PROP, f"{what} differ between processes (different hash seeds and time zones)", {"step": k, "hash_seeds": [seeds[0], seeds[i]], "first_difference": diff})]
         if ref["summary"] != r["summary"]:
-            return [Violation(PROP, "summary statistics differ between processes with different hash seeds", {"hash_seeds": [seeds[0], seeds[i]]})]
+            return [Violation(PROP, "summary statistics differ between processes (different hash seeds and time zones)", {"hash_seeds": [seeds[0], seeds[i]]})]
     last = results[-1]
     if last.get("repeat_equal") is False:
         return [Violation(PROP, "two runs in one process differ", {"first_differing_step": last.get("repeat_first_diff"), "hash_seed": seeds[-1]})]
